@@ -57,7 +57,11 @@ def run(tier, seed):
     from props import remotecfg_common
     rcov, _ = remotecfg_common.run(v, PROP, tier, seed)
     nontrivial = sum(c for k, c in out.classes.items() if k != "-")
+    # two-repository behaviours of System2.tla (commit / fetch / push / pull / merge / prune through the real CLI)
+    from props import system2_common
+    sys2cov, _ = system2_common.run(v, PROP, tier, seed)
     cov = {
+        "system2_behaviours": sys2cov,
         "remotecfg": rcov,
         "file_store": {"scenarios_judged": sum(c for k, c in fout.classes.items() if k != "-"), "skipped_not_implemented": fout.classes.get("-", 0),
                        "passed": fout.passed},
@@ -85,6 +89,9 @@ def run(tier, seed):
 def replay(path):
     with open(path) as f:
         doc = json.load(f)
+    if doc.get("engine") == "system2":
+        from props import system2_common
+        return system2_common.replay(PROP, path, doc)
     v = vlib.Verdict(PROP, "quick", doc.get("seed", 1))
     v.known_defs = []
     if doc.get("mode") == "trace":
